@@ -1,13 +1,86 @@
 /-
-Oracle ops for the `enc` family.  Owned by the slice that models it; see AGENT_GUIDE.md.
+Oracle ops for the `enc` family: the token-level Encoder (Model/Encoder.lean).
+
+  enc run <opts> <call>*
+     opts  = <bits>:<indent hex>:<prefix hex>     bits = seven 0/1 characters, in this order:
+             AllowDuplicateNames AllowInvalidUTF8 Multiline SpaceAfterColon SpaceAfterComma EscapeForHTML EscapeForJS
+             (the EFFECTIVE values, as `Encoder.Options()` reports them after NewEncoder), hex "-" = empty
+     call  = T:n | T:f | T:t                 WriteToken(Null/False/True)
+           | T:s:<hex>                       WriteToken(String(bytes))
+           | T:0:<hex>                       WriteToken(number token whose rendered text is <hex>)
+           | T:{ | T:} | T:[ | T:]           WriteToken(BeginObject/EndObject/BeginArray/EndArray)
+           | V:<hex>                         WriteValue(bytes)
+     answer: one `<res>/<OutputOffset>/<StackDepth>/<kind>/<length>` per call, space separated, then ` out=<hex>`
+             res    = ok | Ename | Ens | Edepth | Edelim | Emissing      (state machine errors)
+                    | Edup | Eutf8 | Eeof | Echar | Eesc | Ebug
+             kind,length = StackIndex(StackDepth()): kind byte in decimal (0 at top level, 123 '{', 91 '['), Last.Length()
+     A rejected call leaves the encoder as it was and the run continues.
+The depth limit is the regenerated constant `maxNestingDepth`.
 -/
 import JsonV.Oracle.Util
+import JsonV.Model.Encoder
+import JsonV.Gen.Constants
 
 namespace JsonV.Oracle.Enc
-open JsonV JsonV.Oracle
+open JsonV JsonV.Oracle JsonV.Model JsonV.Model.Encoder
+
+def errName : EncErr → String
+  | .sm .nonStringName => "Ename" | .sm .invalidNamespace => "Ens" | .sm .maxDepth => "Edepth"
+  | .sm .mismatchDelim => "Edelim" | .sm .missingValue => "Emissing"
+  | .dupName => "Edup" | .invalidUTF8 => "Eutf8" | .unexpectedEOF => "Eeof"
+  | .invalidChar => "Echar" | .invalidEscape => "Eesc" | .bug => "Ebug"
+
+def parseOpts (s : String) : Option Opts :=
+  match s.splitOn ":" with
+  | [bits, ind, pre] =>
+    match bits.toList.map (· == '1'), bytesOfHex ind, bytesOfHex pre with
+    | [a, b, c, d, e, f, g], some ind, some pre =>
+      some { allowDup := a, allowInvalidUTF8 := b, multiline := c, spaceAfterColon := d, spaceAfterComma := e,
+             escHTML := f, escJS := g, indent := ind, indentPrefix := pre,
+             maxDepth := JsonV.Gen.jsontext.c_maxNestingDepth }
+    | _, _, _ => none
+  | _ => none
+
+inductive Call where
+  | tok (t : Tok) | val (v : Bytes)
+
+def parseCall (s : String) : Option Call :=
+  match s.splitOn ":" with
+  | ["T", "n"] => some (.tok .null)
+  | ["T", "f"] => some (.tok .fals)
+  | ["T", "t"] => some (.tok .tru)
+  | ["T", "{"] => some (.tok .beginObj)
+  | ["T", "}"] => some (.tok .endObj)
+  | ["T", "["] => some (.tok .beginArr)
+  | ["T", "]"] => some (.tok .endArr)
+  | ["T", "s", h] => (bytesOfHex h).map fun b => .tok (.str b)
+  | ["T", "0", h] => (bytesOfHex h).map fun b => .tok (.num b)
+  | ["V", h] => (bytesOfHex h).map .val
+  | _ => none
+
+def doCall (e : Enc) : Call → Enc × Option EncErr
+  | .tok t => writeToken e t
+  | .val v => writeValue e v
+
+def showStep (e : Enc) (r : Option EncErr) : String :=
+  let (k, n) := stackIndexLast e
+  let res := match r with | none => "ok" | some err => errName err
+  s!"{res}/{outputOffset e}/{stackDepth e}/{k.toNat}/{n}"
 
 def handle (op : String) (args : List String) : String :=
   match op, args with
-  | _, _ => "ERR unimplemented"
+  | "run", opts :: calls =>
+    match parseOpts opts with
+    | none => badArgs
+    | some o =>
+      let r := calls.foldl (fun acc c => match acc with
+        | none => none
+        | some (e, log) => match parseCall c with
+          | none => none
+          | some call => let (e', res) := doCall e call; some (e', showStep e' res :: log)) (some (Encoder.new o, []))
+      match r with
+      | none => badArgs
+      | some (e, log) => " ".intercalate log.reverse ++ (if log.isEmpty then "" else " ") ++ "out=" ++ hexOfBytes e.out
+  | _, _ => badArgs
 
 end JsonV.Oracle.Enc
